@@ -153,7 +153,7 @@ impl HandoverMonitor {
 
     fn reaction_budget(w: &World, i: usize) -> u64 {
         let c = &w.stations[i].cfg;
-        w.us(3 * c.p_max_us + 2 * c.rx_chunk_us + 2) + 33 * BIT
+        w.us(3 * c.p_max_us + 2 * c.rx_chunk_us + c.tx_lag_us + 2) + 33 * BIT
     }
 }
 
@@ -191,7 +191,7 @@ impl Monitor for HandoverMonitor {
         if let Hs::Passed { to, end, tx: pass_tx, .. } = self.st[i].hs {
             let cfg = &w.stations[i].cfg;
             let slot = w.slot_ticks(i);
-            let by = end + slot + w.us(4 * cfg.p_max_us + cfg.rx_chunk_us + 4) + tol_ticks(w, i, 2, slot);
+            let by = end + slot + w.us(4 * cfg.p_max_us + cfg.rx_chunk_us + cfg.tx_lag_us + 4) + tol_ticks(w, i, 2, slot);
             if p.t > by && p.txs.is_empty() && self.st[i].bytes_since_pass == 0 && !self.st[i].garbage_since_pass && p.new_rx_bytes == 0 && p.rx.is_empty() && p.post.in_ring && p.post.online {
                 // (nothing at all on the wire either: a transmission the station could not see,
                 // e.g. during its own, still makes it wait)
@@ -425,7 +425,10 @@ impl Monitor for HandoverMonitor {
                 // restarts the silence (the station may not claim into a running transmission)
                 let silence_from = s.last_valid_activity.max(own_end).max(s.online_at).min(last_visible_activity(w, &bus, i, idx, tx.start).max(s.online_at)).max(s.last_bytes_poll);
                 let timeout = token_lost_timeout_ticks(w, i);
-                let claim_ok = is_claim && tx.start.saturating_sub(silence_from) + tol_ticks(w, i, 2, timeout) >= timeout;
+                // (behind a transmitter with latency the station knows the end of its own
+                // transmission only with the granularity of its polls, §5.5)
+                let lag_tol = if w.stations[i].cfg.tx_lag_us > 0 { w.stations[i].cfg.p_max_us } else { 0 };
+                let claim_ok = is_claim && tx.start.saturating_sub(silence_from) + tol_ticks(w, i, 2 + lag_tol, timeout) >= timeout;
                 if claim_ok {
                     // a claim after the station's own silence time-out needs no token
                     self.n_claims += 1;
@@ -522,8 +525,10 @@ impl Monitor for HandoverMonitor {
                     }
                     // timing: one slot time of supervision
                     let since = tx.start.saturating_sub(end);
-                    let lo = slot.saturating_sub(w.us(2));
-                    let hi = slot + w.us(cfg.p_max_us + cfg.rx_chunk_us + 2) + tol_ticks(w, i, 1, slot);
+                    // (behind a transmitter with latency the station learns that its telegram is out
+                    // from `poll_transmission`, i.e. with the granularity of its polls: §5.5)
+                    let lo = slot.saturating_sub(w.us(2 + if cfg.tx_lag_us > 0 { cfg.p_max_us } else { 0 }));
+                    let hi = slot + w.us(cfg.p_max_us + cfg.rx_chunk_us + cfg.tx_lag_us + 2) + tol_ticks(w, i, 1, slot);
                     // was anything on the bus in between that the station could have seen?
                     let disturbed = bus.txs[..idx].iter().rev().take(8).any(|t| t.sender != i && t.end() > bus.txs[pass_tx].start && (t.lost_for >> i) & 1 == 0);
                     if since < lo {
